@@ -34,6 +34,8 @@ pub struct FaultyRead<'a> {
     pub delivered_eof: bool,
     pub delivered_interrupts: usize,
     pub max_request: usize,
+    /// set when a persistent error was delivered (observable after the reader took ownership)
+    pub err_flag: Option<std::sync::Arc<std::sync::atomic::AtomicBool>>,
 }
 
 impl<'a> FaultyRead<'a> {
@@ -47,6 +49,14 @@ impl<'a> FaultyRead<'a> {
             delivered_eof: false,
             delivered_interrupts: 0,
             max_request: 0,
+            err_flag: None,
+        }
+    }
+
+    fn mark_err(&mut self) {
+        self.delivered_err = true;
+        if let Some(f) = &self.err_flag {
+            f.store(true, std::sync::atomic::Ordering::SeqCst);
         }
     }
 
@@ -69,13 +79,13 @@ impl Read for FaultyRead<'_> {
         self.max_request = self.max_request.max(buf.len());
         if let Some((c, k)) = self.plan.err_at_call {
             if call >= c {
-                self.delivered_err = true;
+                self.mark_err();
                 return Err(io::Error::new(k, "injected source error"));
             }
         }
         if let Some((b, k)) = self.plan.err_at_byte {
             if self.pos >= b {
-                self.delivered_err = true;
+                self.mark_err();
                 return Err(io::Error::new(k, "injected source error"));
             }
         }
@@ -230,7 +240,9 @@ pub fn drain<R: Read>(r: &mut R, sizes: &[usize], max_out: usize, max_retry: usi
     let maxbuf = sizes.iter().copied().max().unwrap_or(4096).max(1);
     let mut buf = vec![0u8; maxbuf];
     let mut i = 0usize;
-    let call_cap = 64 + 4 * (max_out / sizes.iter().copied().filter(|&s| s > 0).min().unwrap_or(4096).max(1) + 1024);
+    // every successful non-empty read delivers at least one byte; zero-length reads are interleaved
+    // at most len(sizes) per non-empty one
+    let call_cap = (max_out + 4096).saturating_mul(sizes.len().max(1) + 1);
     loop {
         let sz = if sizes.is_empty() {
             4096
